@@ -204,6 +204,8 @@ class PVManager(ComponentManager):
         failed_components: set[int] = set()
         succeeded_components: set[int] = set()
         failed_power = Power.zero()
+        # The power that was actually allocated to the inverters.
+        distributed_power = request.power - remaining_power
         for component_id, task in tasks.items():
             try:
                 task.result()
@@ -235,7 +237,7 @@ class PVManager(ComponentManager):
                     failed_components=failed_components,
                     succeeded_components=succeeded_components,
                     failed_power=failed_power,
-                    succeeded_power=self._target_power - failed_power,
+                    succeeded_power=distributed_power - failed_power,
                     excess_power=remaining_power,
                     request=request,
                 )
@@ -244,7 +246,7 @@ class PVManager(ComponentManager):
         await self._results_sender.send(
             Success(
                 succeeded_components=succeeded_components,
-                succeeded_power=self._target_power,
+                succeeded_power=distributed_power,
                 excess_power=remaining_power,
                 request=request,
             )
